@@ -24,6 +24,11 @@ func (g *Gen) sqlConf() *SqlConf {
 }
 
 func genC19(g *Gen) {
+	g.arrangedFrames("sql arranged", func(f int) {
+		conf := g.sqlConf()
+		g.do(Step{Op: "ToSQL", Recv: f, Sql: conf})
+		g.do(Step{Op: "ReadSQL", Recv: -1, Other: f + 1, Sql: conf})
+	})
 	sizes := []int{1, 1, 2, 3, 5, 9, 20}
 	if g.thorough() {
 		sizes = append(sizes, 60, 200)
